@@ -30,7 +30,7 @@ struct FakeHw
     static void ( *isr )( void* );
     static void* that;
 
-    struct lock_guard { lock_guard() {} };
+    using lock_guard = hooked_lock_guard;
 
     static void init( void ( *i )( void* ), void* t ) { isr = i; that = t; }
     static int  pdu_gap_required_by_encryption() { return 0; }
@@ -91,6 +91,7 @@ struct IsrRadio : bluetoe::nrf52_details::nrf52_radio_base< IsrRadio< TX, RX >, 
 
     // ---- driver ---------------------------------------------------------------------------------------------------
     static constexpr bool real_isr = true;
+    static constexpr std::size_t tx_size = TX, rx_size = RX;
     static const char* dut_name() { return "real nrf52_radio_base (schedule_connection_event, radio_interrupt_handler, run) with a scripted fake Hardware"; }
     static void extra_regions( mc::Regions& r ) { r.add( FakeHw::st ); }
 
